@@ -243,6 +243,7 @@ func (s *Server) manifestPut(repoStr, arg string) http.HandlerFunc {
 			}
 		}
 		// parse arg
+		dParam := dExpect
 		if types.RefTagRE.MatchString(arg) {
 			tag = arg
 		} else {
@@ -279,6 +280,13 @@ func (s *Server) manifestPut(repoStr, arg string) http.HandlerFunc {
 			w.WriteHeader(http.StatusBadRequest)
 			_ = types.ErrRespJSON(w, types.ErrInfoDigestInvalid("digest mismatch, expected "+d.String()))
 			s.log.Debug("content digest did not match request", "repo", repoStr, "arg", arg, "expect", d.String())
+			return
+		}
+		// a digest parameter next to a digest reference is verified too
+		if dParam != "" && dParam != dExpect && dParam.Algorithm().FromBytes(mRaw) != dParam {
+			w.WriteHeader(http.StatusBadRequest)
+			_ = types.ErrRespJSON(w, types.ErrInfoDigestInvalid("digest mismatch, digest parameter does not match the content"))
+			s.log.Debug("content digest did not match digest parameter", "repo", repoStr, "arg", arg, "param", dParam.String())
 			return
 		}
 		// if mt == "", detect media type
